@@ -1,6 +1,6 @@
-(* Reconciler/CoverProofs.v — user writes placed anywhere keep the cover invariant (C14), except the
-   foreign status-only write over an Error status (write kind 4, `statx`): that one breaks it — the
-   reported defect, see Refuted.v. *)
+(* Reconciler/CoverProofs.v — user writes placed anywhere keep the cover invariant (C14), including the
+   foreign status-only write over an Error status (write kind 4, `statx`): since fix 8844901 the retry's
+   result is applied to the re-stamped object (before the fix that write lost the object: Refuted.v). *)
 From Coq Require Import List NArith Bool Lia ZifyN ZifyBool.
 From SV Require Import Reconciler.Retries Reconciler.Model Reconciler.RetriesProofs Reconciler.CommitProofs Reconciler.RoundProofs.
 Import ListNotations.
@@ -18,6 +18,16 @@ Lemma insert_covers : forall D t c res q o, c <= t_rev t -> o_kind o <> Error ->
 Proof.
   intros D t c res q o Hc Hne Hcov pk. destruct (N.eq_dec pk (o_pk o)) as [E|E].
   - subst pk. unfold covered. rewrite slot_insert_same. destruct (o_kind o); try exact I; try (left; lia). congruence.
+  - apply (covered_ext D t). + apply slot_insert_other. exact E. + apply Hcov.
+Qed.
+
+(* a status-only write by another writer: the same object is re-inserted at a new revision *)
+Lemma restamp_covers : forall D t c res q o r, c <= t_rev t -> slot_of t (o_pk o) = Some (Live o r) ->
+  (forall pk, covered D t c res q pk) -> forall pk, covered D (t_insert t o) c res q pk.
+Proof.
+  intros D t c res q o r Hc Hs Hcov pk. destruct (N.eq_dec pk (o_pk o)) as [E|E].
+  - subst pk. specialize (Hcov (o_pk o)). unfold covered in *. rewrite slot_insert_same. rewrite Hs in Hcov.
+    destruct (o_kind o); try exact I; try (left; lia). exact Hcov.
   - apply (covered_ext D t). + apply slot_insert_other. exact E. + apply Hcov.
 Qed.
 
@@ -78,9 +88,6 @@ Proof.
   split; [pose proof (t_rev_delete t k); lia|apply delete_covers; assumption].
 Qed.
 
-(* all write kinds except 4 (statx: a foreign status-only write that is NOT skipped over an Error status) *)
-Definition write_safe (e : env) (kind k : N) : Prop := kind <> 4.
-
 Lemma w_put_wstate : forall D e k c res q, wstate D (e_tab e) c res q -> wstate D (e_tab (w_put e k)) c res q.
 Proof.
   intros D e k c res q H. unfold w_put. cbn [bump_ver e_tab e_ver].
@@ -94,10 +101,15 @@ Proof.
   cbn [add_urev set_tab e_tab]. apply delete_wstate. exact H.
 Qed.
 
-Lemma w_stat_wstate : forall D e k c res q, wstate D (e_tab e) c res q -> wstate D (e_tab (w_stat true e k)) c res q.
+Lemma w_stat_wstate : forall D g e k c res q, wstate D (e_tab e) c res q -> wstate D (e_tab (w_stat g e k)) c res q.
 Proof.
-  intros D e k c res q H. unfold w_stat. destruct (t_live (e_tab e) k) as [[o r]|]; [|exact H].
-  cbn [andb]. destruct (o_kind o) eqn:Ek; try exact H; cbn [add_urev set_tab e_tab]; apply insert_wstate; try exact H; congruence.
+  intros D g e k c res q H. unfold w_stat. destruct (t_live (e_tab e) k) as [[o r]|] eqn:El; [|exact H].
+  match goal with |- wstate D (e_tab (if ?b then _ else _)) _ _ _ => destruct b end; [exact H|].
+  cbn [add_urev set_tab e_tab]. destruct H as [A [B C]].
+  assert (Hs : slot_of (e_tab e) k = Some (Live o r)) by (apply t_live_slot; exact El).
+  assert (Hpk : o_pk o = k) by (apply (A k o r Hs)).
+  split; [apply keyed_insert; exact A|]. split; [cbn; lia|].
+  apply (restamp_covers D (e_tab e) c res q o r B); [rewrite Hpk; exact Hs|exact C].
 Qed.
 
 Lemma w_ref_wstate : forall D e k c res q, wstate D (e_tab e) c res q -> wstate D (e_tab (w_ref e k)) c res q.
@@ -109,14 +121,14 @@ Proof.
 Qed.
 
 Theorem do_write_covers : forall D e kind k c res q,
-  keyed (e_tab e) -> c <= t_rev (e_tab e) -> write_safe e kind k ->
+  keyed (e_tab e) -> c <= t_rev (e_tab e) ->
   (forall pk, covered D (e_tab e) c res q pk) ->
   keyed (e_tab (do_write e kind k)) /\ c <= t_rev (e_tab (do_write e kind k)) /\
   forall pk, covered D (e_tab (do_write e kind k)) c res q pk.
 Proof.
-  intros D e kind k c res q A B Hs C.
+  intros D e kind k c res q A B C.
   assert (W : wstate D (e_tab e) c res q) by (split; [exact A|split; [exact B|exact C]]).
-  unfold write_safe in Hs. unfold do_write.
+  unfold do_write.
   destruct kind as [|[[p|p|]|[p|[p|p|]|]|]].
   - apply w_put_wstate; exact W.
   - apply w_ref_wstate; exact W.
@@ -125,19 +137,21 @@ Proof.
   - apply w_ref_wstate; exact W.
   - apply w_ref_wstate; exact W.
   - apply w_ref_wstate; exact W.
-  - exfalso; apply Hs; reflexivity.
+  - apply w_stat_wstate; exact W.
   - apply w_put_wstate. apply w_del_wstate. exact W.
   - apply w_del_wstate; exact W.
 Qed.
 
 Theorem two_commits_cover : forall D c now res1 res2 t q t1 q1 t2 q2,
   keyed t -> uniq q -> NoDup (map (fun r => o_pk (r_obj r)) res1) ->
+  (forall r, In r res1 -> r_orig r <= t_rev t) ->
   (forall pk, covered D t c res1 q pk) -> commit_status now t q res1 = (t1, q1) ->
   forall t1' q1', keyed t1' -> uniq q1' -> NoDup (map (fun r => o_pk (r_obj r)) res2) ->
+  (forall r, In r res2 -> r_orig r <= t_rev t1') ->
   (forall pk, covered D t1' c res2 q1' pk) -> commit_status now t1' q1' res2 = (t2, q2) ->
   (forall pk, covered D t1 c [] q1 pk) /\ (forall pk, covered D t2 c [] q2 pk).
 Proof.
-  intros D c now res1 res2 t q t1 q1 t2 q2 K1 U1 N1 C1 E1 t1' q1' K2 U2 N2 C2 E2. split.
-  - exact (commit_status_covers D c now res1 t q t1 q1 K1 U1 N1 C1 E1).
-  - exact (commit_status_covers D c now res2 t1' q1' t2 q2 K2 U2 N2 C2 E2).
+  intros D c now res1 res2 t q t1 q1 t2 q2 K1 U1 N1 P1 C1 E1 t1' q1' K2 U2 N2 P2 C2 E2. split.
+  - exact (commit_status_covers D c now res1 t q t1 q1 K1 U1 N1 P1 C1 E1).
+  - exact (commit_status_covers D c now res2 t1' q1' t2 q2 K2 U2 N2 P2 C2 E2).
 Qed.
